@@ -975,8 +975,9 @@ impl Opcode for SLoad {
         let key = vm.stack_handle()?.pop()?;
 
         // Read from storage using that key
+        let value_size_limit = vm.config().value_size_limit;
         let storage = vm.state()?.storage_mut();
-        let result = storage.load(&key);
+        let result = storage.load_with_limit(&key, Some(value_size_limit));
 
         // Write it into the stack
         vm.stack_handle()?.push(result)?;
